@@ -154,7 +154,7 @@ fn translate_block(
                     semantics::mr(&mut instruction_graph, &instruction)
                 }
                 capstone::ppc_insn::PPC_INS_MTLR => {
-                    semantics::mflr(&mut instruction_graph, &instruction)
+                    semantics::mtlr(&mut instruction_graph, &instruction)
                 }
                 capstone::ppc_insn::PPC_INS_NOP => {
                     semantics::nop(&mut instruction_graph, &instruction)
